@@ -77,7 +77,7 @@ def gen_plan(rng, index, tier):
     steps = []
     kinds = ["swap", "swap", "cascade", "discharge_fresh", "discharge_pool", "add", "remove", "remove"]
     if cfg["rejected"]:
-        kinds += ["add_occupied", "remove_absent", "readd_present", "readd_removed"]
+        kinds += ["add_occupied", "remove_absent", "readd_present", "readd_removed", "add_copy"]
     for _ in range(rng.randint(4, 40)):
         op = rng.choice(kinds)
         s = {"op": op, "a": rng.randrange(1000), "b": rng.randrange(1000)}
@@ -342,6 +342,19 @@ class World:
             p = occ[st["a"] % len(occ)]
             obj = core.createAssemblyOfType(assemType=st["type"])
             return self.expect_refusal(k, st, lambda: core.add(obj, core.spatialGrid[p[0], p[1], 0]))
+        if op == "add_copy":
+            # a deep copy of an assembly of the core carries that assembly's name: adding it at a free
+            # location must be refused (entirely)
+            if not self.free:
+                return False
+            src = self.pick_core(st["a"])
+            if src is None:
+                return False
+            p = self.free[st["b"] % len(self.free)]
+            if p in m.loc:
+                return False
+            dup = copy.deepcopy(self.h2o[src])
+            return self.expect_refusal(k, st, lambda: core.add(dup, core.spatialGrid[p[0], p[1], 0]))
         if op == "remove_absent":
             cands = sorted(m.purged | set(m.pool))
             if not cands:
